@@ -6,7 +6,8 @@ The model iterator is the C pointer automaton (`Model/TST.lean`: `iterStep`, `it
 `cur / next / adv / nextStat` = `current_node / next_node / advanced_on_remove / next_stat`, node
 addresses as paths).  Enumeration order is the trie's first-arrival pre-order, i.e. a permutation of
 the map's pairs.  Theorems that speak about *keys* need stored key = spelled key (`Good`, broken only
-by the empty key, X5), hence `_partial`. -/
+by the empty key, X5), hence `_partial`.  Since the repair X7 a repeated `iter_remove` is rejected, so
+the program theorems quantify over **all** call sequences. -/
 namespace CC.Properties.C07TST
 open CC CC.TST
 open CC.Spec (StrMap)
@@ -18,11 +19,11 @@ variable {cmp : Cmp}
 pairs, each once, then `CC_ITER_END`; the table and the ledger are untouched.  Holds for every tree
 shape (single marked root, deep chains, after removals …). -/
 theorem traversal_complete (t : Table) (mem : Mem) (hs : t.size = t.root.marked) :
-    (t.iterRun (iterInit t) (List.replicate (t.size + 1) .next) mem).1 =
+    (t.iterRun cmp (iterInit t) (List.replicate (t.size + 1) .next) mem).1 =
       t.abs.items.map (fun e => ({ st := .ok, key := some e.1, val := some e.2 } : IOut)) ++ [{ st := .iterEnd }] ∧
-    (t.iterRun (iterInit t) (List.replicate (t.size + 1) .next) mem).2.1 = t ∧
-    (t.iterRun (iterInit t) (List.replicate (t.size + 1) .next) mem).2.2.2 = mem := by
-  have h := iterRun_nexts t mem t.root.entriesP (iterInit t) (Or.inl ⟨rfl, iterInit_at t⟩)
+    (t.iterRun cmp (iterInit t) (List.replicate (t.size + 1) .next) mem).2.1 = t ∧
+    (t.iterRun cmp (iterInit t) (List.replicate (t.size + 1) .next) mem).2.2.2 = mem := by
+  have h := iterRun_nexts (cmp := cmp) t mem t.root.entriesP (iterInit t) (Or.inl ⟨rfl, iterInit_at t⟩)
   rw [entriesP_length, ← hs] at h
   refine ⟨?_, h.2.1, h.2.2⟩
   rw [h.1]
@@ -54,22 +55,38 @@ theorem remove_affects_only_yielded_partial (hc : CmpLaw cmp) (t : Table) (it : 
   refine ⟨h.1, h.2.1, ?_, h.2.2.2.2.2.2.2.1, h.2.2.1⟩
   intro k; rw [h.2.2.2.1 k, SpecLemmas.get_remove]
 
-/-- **program_refines**: every program of `iter_next` / `iter_remove` calls with at most one removal per
-yielded element simulates the ideal cursor (same statuses and values, every yielded key was still
-pending, final content = ideal map, END exactly when nothing is pending) -/
-theorem program_refines_partial (hc : CmpLaw cmp) (ops : List IOp) (t : Table) (mem : Mem)
-    (hg : t.Good cmp) (hl : t.Owns mem) (hlegal : StrMap.legalProg false ops = true) :
-    (t.iterRun (iterInit t) ops mem).1 =
-      (t.abs.cursorRun (StrMap.cursorNew t.abs) (C11.iterChoices t (iterInit t) ops mem)).1.map (·.1) ∧
-    (∀ x ∈ (t.abs.cursorRun (StrMap.cursorNew t.abs) (C11.iterChoices t (iterInit t) ops mem)).1, x.2 = true) ∧
-    C11.Rel (t.iterRun (iterInit t) ops mem).2.1
-      (t.abs.cursorRun (StrMap.cursorNew t.abs) (C11.iterChoices t (iterInit t) ops mem)).2.1 :=
-  ⟨(C11.iter_init_program_refines_partial hc ops t mem hg hl hlegal).1,
-   (C11.iter_init_program_refines_partial hc ops t mem hg hl hlegal).2.1,
-   (C11.iter_init_program_refines_partial hc ops t mem hg hl hlegal).2.2.1⟩
+/-- **program_refines**: *every* sequence of `iter_next` / `iter_remove` / `get` / `contains_key` / `size`
+calls after `iter_init` simulates the ideal cursor (same statuses and values, every yielded key was
+still pending, final content = ideal map, END exactly when nothing is pending); the table keeps its
+invariant and the exact ledger (`StructOK`), so the session can be followed by any history
+(`C11.history_refines_partial` has `Op.iterate` for exactly that). -/
+theorem program_refines_partial (hc : CmpLaw cmp) (ops : List IOp) (hk : ∀ op ∈ ops, [] ∉ op.keys)
+    (t : Table) (s : StrMap) (mem : Mem) (hg : t.Good cmp) (hl : t.Owns mem) (hr : C11.Rel t s) :
+    (t.iterRun cmp (iterInit t) ops mem).1 =
+      (s.cursorRun (StrMap.cursorNew s) (C11.iterChoices cmp t (iterInit t) ops mem)).1.map (·.1) ∧
+    (∀ x ∈ (s.cursorRun (StrMap.cursorNew s) (C11.iterChoices cmp t (iterInit t) ops mem)).1, x.2 = true) ∧
+    C11.Rel (t.iterRun cmp (iterInit t) ops mem).2.1
+      (s.cursorRun (StrMap.cursorNew s) (C11.iterChoices cmp t (iterInit t) ops mem)).2.1 ∧
+    (t.iterRun cmp (iterInit t) ops mem).2.1.Good cmp ∧
+    (t.iterRun cmp (iterInit t) ops mem).2.1.Owns (t.iterRun cmp (iterInit t) ops mem).2.2.2 ∧
+    StructOK cmp t mem (t.iterRun cmp (iterInit t) ops mem).2.1 (t.iterRun cmp (iterInit t) ops mem).2.2.2 := by
+  obtain ⟨h1, h2, h3, h4, h5⟩ := C11.iter_init_program_refines_partial hc ops hk t s mem hg hl hr
+  exact ⟨h1, h2, h3, h4, h5.owns hl, h5⟩
 
-/-- `iter_remove` with nothing yielded (before the first `iter_next`, after the end): not found, inert -/
-theorem remove_without_yield_inert (t : Table) (it : Iter) (w : Bool) (mem : Mem) (h : it.cur = none) :
+/-- `iter_remove` with nothing yielded (before the first `iter_next`, after the end) or repeated for the
+same yielded element (X7): not found, inert -/
+theorem remove_without_yield_inert (t : Table) (it : Iter) (w : Bool) (mem : Mem)
+    (h : it.cur = none ∨ it.adv = true) :
     iterRemove t it w mem = (.errKeyNotFound, none, t, it, mem) := iterRemove_inert t it w mem h
+
+/-! non-vacuity: a session on the nested-prefix table — yield, remove, repeated remove (rejected),
+query, two more yields, end -/
+example :
+    (C11.nestedTable.iterRun cmpSigned (iterInit C11.nestedTable)
+        [.next, .remove true, .remove true, .get [97], .next, .next, .next] { live := 7 }).1 =
+      [{ st := .ok, key := some [97], val := some 1 }, { st := .ok, val := some 1 }, { st := .errKeyNotFound },
+       { st := .errKeyNotFound }, { st := .ok, key := some [128], val := some 3 },
+       { st := .ok, key := some [97, 98], val := some 2 }, { st := .iterEnd }] := by
+  decide
 
 end CC.Properties.C07TST
